@@ -38,4 +38,9 @@ CLAIMED['C17'] = {
     'text': 'Range, equal length, strict ordering of x indices, K-neighbour membership and the distance bound are proved for every input from the final loop under the assumed cKDTree.query contract; _unique_inds is proved to index the original array. Injectivity of the y indices depends on the greedy column loop, which is abstracted: it is decided by the bounded stand-in only and reported as not covered by the proof.',
     'note': PROOF_NOTE + 'Greedy loop body not verified (abstracted); injectivity bounded-only.',
 }
+CLAIMED['C20'] = {
+    'technique': 'deductive: the real decorator bodies (wrap_verbose.inner_verbose, sift_logger) and level accessors executed on a finite ghost model of the logging module; restore postcondition on normal and exceptional exit for every ghost state (symbolic level, console present/absent) x every per-call verbosity; history lemma; bounded stand-in: every history to depth 2/4 over 10 operations from both start states on the real logger',
+    'text': 'For every logger state and every verbosity value the wrapped call is proved to return exactly the wrapped result (or propagate exactly its exception) with the console level restored, and to raise nothing of its own before set_up; by the frame conditions of the other operations the level after any history is the last one set explicitly. Result identity for the real sifts across logger states is bounded.',
+    'note': 'Assumes the ghost model of logging (one optional console handler, Handler.level/setLevel/get_name, logging.disable) and that the wrapped function does not itself touch the logger state; the pyvc engine and SMT solvers are trusted.',
+}
 PENDING_REASON = {}
